@@ -208,7 +208,6 @@ def unit_acrobot(S):
             what="joint velocities are bounded by 4*pi and 9*pi respectively (Gymnasium's MAX_VEL_1 / MAX_VEL_2)")
     d1 = CC.Acrobot()
     S.fact("Acrobot.clip/default-velocity-limits", abs(float(d1.max_vel_1) - 4 * np.pi) < 1e-5 and abs(float(d1.max_vel_2) - 9 * np.pi) < 1e-5, function=F.format("clip"), what="the default limits are 4*pi and 9*pi")
-    qs = [v for v in [z3.Int(f"fmodq!{i}") for i in range(1, 12)]]
     S.prove("Acrobot.clip/angles-wrapped-into-[-pi,pi)", ctx, sand(*[z3.And(cl.at((i,)) >= -pi, cl.at((i,)) <= pi) for i in (0, 1)]), hyps=[y.at((0,)) > -1000, y.at((0,)) < 1000, y.at((1,)) > -1000, y.at((1,)) < 1000],
             function=F.format("clip"), what="joint angles are wrapped into [-pi, pi] (Gymnasium's wrap)")
     State = CC.acrobot.AcrobotState
